@@ -13,6 +13,7 @@ import (
 	"os"
 	"os/exec"
 	"path/filepath"
+	"regexp"
 	"runtime"
 	"sort"
 	"strconv"
@@ -134,6 +135,32 @@ func goEnv() []string {
 		out = append(out, k+"="+v)
 	}
 	return out
+}
+
+// sweepBuildDir removes what earlier invocations left behind in .build: crash
+// logs, output directories, private modfiles and worker binaries of driver
+// processes that no longer exist.
+func sweepBuildDir(id string) {
+	buildDir := filepath.Join(verifDir, ".build")
+	alive := func(pid string) bool {
+		if pid == strconv.Itoa(os.Getpid()) {
+			return true
+		}
+		_, err := os.Stat("/proc/" + pid)
+		return err == nil
+	}
+	ents, _ := os.ReadDir(buildDir)
+	pidOf := regexp.MustCompile(`^(?:out-C\d+-|crash-C\d+-|worker-|overlay-worker-|go-|overlay-)(\d+)`)
+	for _, e := range ents {
+		n := e.Name()
+		m := pidOf.FindStringSubmatch(n)
+		if m == nil {
+			continue
+		}
+		if !alive(m[1]) {
+			os.RemoveAll(filepath.Join(buildDir, n))
+		}
+	}
 }
 
 func repoDir() string {
@@ -387,6 +414,7 @@ func cmdCheck(args []string) {
 		wall = *wallFlag
 	}
 	tag := fmt.Sprintf("%s-%d", id, os.Getpid())
+	sweepBuildDir(id)
 	outDir := filepath.Join(verifDir, ".build", "out-"+tag)
 	os.MkdirAll(outDir, 0o755)
 	defer os.RemoveAll(outDir)
